@@ -71,7 +71,7 @@ CHECKS['C03'] = {
     'unproved': ['evaluate arms FunctionCall for regexp_matches, array, array_unique, now, EXTRACT(EPOCH), date_trunc', 'parser_tree_converter::transform_expression arms IN / Call / CASE (closures capturing the lowering state), extract_aggregate (recursive in-place swap), create_create_table_statement'],
 }
 CHECKS['C09'] = {
-    'verus_units': ['eval', 'follow', 'select', 'engine', 'extract', 'parser', 'tokenizer', 'converter', 'valuetype', 'executor', 'aggregate', 'aggdispatch', 'aggresult', 'join', 'joinload', 'mapping'],
+    'verus_units': ['eval', 'follow', 'select', 'engine', 'extract', 'parser', 'tokenizer', 'converter', 'valuetype', 'output', 'executor', 'aggregate', 'aggdispatch', 'aggresult', 'join', 'joinload', 'mapping'],
     'only_safety': True,
     'clause_prefixes': ['c09'],
     'technique': 'contract-based deductive verification (Verus): absence of arithmetic overflow, division by zero, failed callee preconditions (unwrap, indexing, unreachable!) in every extracted function',
@@ -80,7 +80,7 @@ CHECKS['C09'] = {
     'level': 'proof',
     'explanation': 'Verus generates, for every extracted function, the obligations that each arithmetic operation fits its type, each divisor is non-zero, each index is in bounds and each callee precondition (including `requires false` of the unimplemented!/panic! stand-in) holds; this check counts exactly those.',
     'trusted': COMMON_TRUST,
-    'unproved': ['OutputPrinter::print', 'Parser::parse_* grammar functions, parser_tree_converter', 'ValueType::parse (chrono, Local time zone)', 'Value::json_value', 'evaluate arms FunctionCall for regexp_matches / array / array_unique / now / EXTRACT(EPOCH) / date_trunc'],
+    'unproved': ['record text rendering (format!, serde_json::to_string)', 'Parser::parse_* grammar functions, parser_tree_converter', 'ValueType::parse (chrono, Local time zone)', 'evaluate arms FunctionCall for regexp_matches / array / array_unique / now / EXTRACT(EPOCH) / date_trunc'],
 }
 
 CHECKS['C08'] = {
@@ -239,8 +239,19 @@ CHECKS['C05'] = {
     'unproved': ['HashMapColumnProvider::get (scope lookup chain)', 'join branches of ExecutionEngine::execute_select / execute_aggregate (closures capturing &mut: not supported by Verus)'],
 }
 
+CHECKS['C17'] = {
+    'verus_units': ['output'],
+    'clause_prefixes': ['c17'],
+    'technique': 'contract-based deductive verification (Verus) of OutputPrinter::with_printer / print and Value::json_value extracted from /repo; the text of a record (format!, join, serde_json::to_string) is an uninterpreted function of the row',
+    'claim': 'Proof of the RECORD STRUCTURE part of the property only: for every result table and every history of earlier print calls, OutputPrinter::print hands the printer exactly one record per result row, in result order (a lone `input` column in text format prints just the line); in CSV format exactly one header line precedes the first record the printer ever prints and none later; a blank line closes a multi-row table unless single_result; Value::json_value maps a value to the JSON value of its type - INT and finite REAL as numbers without loss, non-finite REAL and NULL as null, TEXT as a string with the same characters, BOOLEAN, arrays element by element, timestamps and intervals as their text form. NOT decided: the characters of a record - JSON escaping and key order (serde_json), CSV fields and delimiters, `name: value` rendering, number formatting (format!, Display for Value) - these are uninterpreted functions here.',
+    'note': 'Trusted: Printer::println appends one line (trait contract), the stand-ins for the record texts (vx_text_record / vx_json_record / vx_csv_header / vx_csv_record replace the iterator chains with format! / join / serde_json::to_string, with the index precondition row.columns.len() >= number of column names), serde_json::Number::from / from_f64 as documented, a String is determined by its text. Precondition (assumed about the engines): every row has a value for every output column.',
+    'level': 'proof',
+    'explanation': 'Loop invariant in forward style: lines printed so far ++ records_from(rows i.., header still owed) is constant; records_from is the specification written from the property text.',
+    'trusted': COMMON_TRUST + ['the text of a record is an uninterpreted function of (format, column names, row)', 'serde_json::Number constructors as documented'],
+    'unproved': ['record text: JSON escaping / key order, CSV fields, text rendering (format!, Display for Value, serde_json::to_string)', 'ConsolePrinter::println (stdout)'],
+}
+
 NOT_APPLICABLE = {
-    'C17': 'Printed records: OutputPrinter::print / Display for Value / JSON rendering are format!/write!/serde_json string construction; Verus has no specification of formatted output and rejects the constructs, Kani does not terminate on string code here. No contract within reach expresses the property.',
     'C18': 'Determinism / hash-seed independence is a 2-safety property over runs whose only threat is iteration over std HashMap; the iterating functions are outside Verus\' accepted subset and Kani must stub RandomState to a constant, which assumes the property away.',
     'C20': 'Layout/case/clause-order insensitivity is a relation between the parses of TWO texts. The contracts within reach are per call: tokenize is under contract for positions, the End token and operator fusion (unit tokenizer), but relating two runs needs a complete functional specification of the token sequence (keyword table behind lazy_static, string escapes, comments, IS NOT / NOT IN fusion) plus an induction over a stateful scanner and over the recursive-descent clause loop, whose functions (Parser::parse_*, Box/Vec-building tree code, format!) are outside the subset Verus accepts here; a specification that complete would restate the tokenizer and parser rather than the property. No contract within reach decides it.',
 }
